@@ -242,6 +242,31 @@ static unsigned char *gen_content(long n, long nl) {
     return c;
 }
 
+/* Integer arguments.  An ordinary token is a decimal that fits TLC's 32-bit integers.  Extreme values (operations "<op>_x",
+ * StrObjTrace.tla) travel as {dec=<decimal numeral>,v=<value if |value| < 2^30, else 0>,w=<0 | 1 = huge positive | -1 = huge negative>}:
+ * the call gets the exact 64-bit value `dec`, the specification the class (w, v).  The consistency of the two is checked here. */
+static int xint_bad;
+static long long xint(const char *t) {
+    const char *d, *q; long long val, v; int w, saved = errno;      /* errno may be a preset of the purity runs: keep it */
+    if (t[0] != '{') return (long long) vh_int(t);
+    d = strstr(t, "dec="); q = strstr(t, ",v=");
+    if (!d || !q || !strstr(t, ",w=")) { xint_bad = 1; return 0; }
+    errno = 0;
+    val = strtoll(d + 4, NULL, 10);
+    if (errno == ERANGE) xint_bad = 1;
+    v = strtoll(q + 3, NULL, 10);
+    w = atoi(strstr(t, ",w=") + 3);
+    errno = saved;
+    if (w == 0 ? (val != v || v >= (1LL << 30) || v <= -(1LL << 30)) : (w == 1 ? val < (1LL << 30) : (w == -1 ? val > -(1LL << 30) : 1))) xint_bad = 1;
+    return val;
+}
+/* a number given as sign and three decimal limbs (each < 10^9): neg a b c = +-((a * 10^9 + b) * 10^9 + c) */
+static long limbs(const vh_step_t *st, int k) {
+    unsigned long long mag = ((unsigned long long) vh_int(st->args[k + 1]) * 1000000000ULL + (unsigned long long) vh_int(st->args[k + 2])) * 1000000000ULL
+                             + (unsigned long long) vh_int(st->args[k + 3]);
+    return (long) (vh_bool(st->args[k]) ? (0ULL - mag) : mag);
+}
+
 /* ---- steps ------------------------------------------------------------------------------------------------------------ */
 /* Heap balance of our own for record mode (common.h's is switched off there with VH_NO_HEAP because the token buffers
  * grow with the texts): live heap minus the capacities of the three token buffers must be the same at the end of a
@@ -297,8 +322,8 @@ static const char *step1(const vh_step_t *st, vh_sb *ret, vh_sb *state) {
             if (isnew) self = V->new_from_ptr(NULL); else r = r && V->init_from_ptr(self, NULL);
         } else if (OP("_from_buff")) {
             p = vh_bytes(ARG(0), &n, 0);
-            if (isnew) self = V->new_from_buff((spif_charptr_t) p, (spif_stridx_t) vh_int(ARG(1)));
-            else r = r && V->init_from_buff(self, (spif_charptr_t) p, (spif_stridx_t) vh_int(ARG(1)));
+            if (isnew) self = V->new_from_buff((spif_charptr_t) p, (spif_stridx_t) xint(ARG(1)));
+            else r = r && V->init_from_buff(self, (spif_charptr_t) p, (spif_stridx_t) xint(ARG(1)));
         } else if (OP("_from_buff_gen")) {       /* args m size: a size-byte buffer holding m generated characters, then NULs */
             size_t m = (size_t) vh_int(ARG(0)), sz = (size_t) vh_int(ARG(1));
             unsigned char *g = gen_content((long) m, 0);
@@ -307,8 +332,11 @@ static const char *step1(const vh_step_t *st, vh_sb *ret, vh_sb *state) {
             if (isnew) self = V->new_from_buff((spif_charptr_t) p, (spif_stridx_t) sz);
             else r = r && V->init_from_buff(self, (spif_charptr_t) p, (spif_stridx_t) sz);
         } else if (OP("_from_buff_null")) {
-            if (isnew) self = V->new_from_buff(NULL, (spif_stridx_t) vh_int(ARG(0)));
-            else r = r && V->init_from_buff(self, NULL, (spif_stridx_t) vh_int(ARG(0)));
+            if (isnew) self = V->new_from_buff(NULL, (spif_stridx_t) xint(ARG(0)));
+            else r = r && V->init_from_buff(self, NULL, (spif_stridx_t) xint(ARG(0)));
+        } else if (OP("_from_num_x")) {            /* neg a b c: the number as sign and decimal limbs */
+            long kx = limbs(st, 0);
+            if (isnew) self = V->new_from_num(kx); else r = r && V->init_from_num(self, kx);
         } else if (OP("_from_num")) {
             if (isnew) self = V->new_from_num(vh_int(ARG(0))); else r = r && V->init_from_num(self, vh_int(ARG(0)));
         } else if (OP("_from_fp") || OP("_from_fd") || OP("_from_fp_gen") || OP("_from_fd_gen")) {
@@ -359,11 +387,11 @@ static const char *step1(const vh_step_t *st, vh_sb *ret, vh_sb *state) {
     else if (OP("prepend_self")) sb_bool(ret, V->prepend(self, self));
     else if (OP("splice_from_ptr")) {
         p = vh_bytes(ARG(2), &n, 1);
-        sb_bool(ret, V->splice_from_ptr(self, (spif_stridx_t) vh_int(ARG(0)), (spif_stridx_t) vh_int(ARG(1)), (spif_charptr_t) p));
+        sb_bool(ret, V->splice_from_ptr(self, (spif_stridx_t) xint(ARG(0)), (spif_stridx_t) xint(ARG(1)), (spif_charptr_t) p));
     }
-    else if (OP("splice_from_ptr_null")) sb_bool(ret, V->splice_from_ptr(self, (spif_stridx_t) vh_int(ARG(0)), (spif_stridx_t) vh_int(ARG(1)), NULL));
-    else if (OP("splice")) sb_bool(ret, V->splice(self, (spif_stridx_t) vh_int(ARG(0)), (spif_stridx_t) vh_int(ARG(1)), other));
-    else if (OP("splice_self")) sb_bool(ret, V->splice(self, (spif_stridx_t) vh_int(ARG(0)), (spif_stridx_t) vh_int(ARG(1)), self));
+    else if (OP("splice_from_ptr_null")) sb_bool(ret, V->splice_from_ptr(self, (spif_stridx_t) xint(ARG(0)), (spif_stridx_t) xint(ARG(1)), NULL));
+    else if (OP("splice")) sb_bool(ret, V->splice(self, (spif_stridx_t) xint(ARG(0)), (spif_stridx_t) xint(ARG(1)), other));
+    else if (OP("splice_self")) sb_bool(ret, V->splice(self, (spif_stridx_t) xint(ARG(0)), (spif_stridx_t) xint(ARG(1)), self));
     else if (OP("trim")) sb_bool(ret, V->trim(self));
     else if (OP("reverse")) sb_bool(ret, V->reverse(self));
     else if (OP("upcase")) sb_bool(ret, V->upcase(self));
@@ -379,6 +407,10 @@ static const char *step1(const vh_step_t *st, vh_sb *ret, vh_sb *state) {
         long gn = vh_int(ARG(0));
         p = gen_content(gn, 0); p[gn] = 0;
         sb_bool(ret, V->sprintf(self, (spif_charptr_t) f, (char *) p)); free(f);
+    }
+    else if (OP("sprintf_d_x")) {
+        unsigned char *f = vh_bytes("[37,100]", NULL, 1);       /* "%d" with an int given as sign and decimal limbs */
+        sb_bool(ret, V->sprintf(self, (spif_charptr_t) f, (int) limbs(st, 0))); free(f);
     }
     else if (OP("sprintf_d")) {
         unsigned char *f = vh_bytes("[37,100]", NULL, 1);       /* "%d" */
@@ -396,7 +428,7 @@ static const char *step1(const vh_step_t *st, vh_sb *ret, vh_sb *state) {
     else if (OP("find")) sb_int(ret, (long) V->find(self, other));
     else if (OP("find_self")) sb_int(ret, (long) V->find(self, self));
     else if (OP("substr")) {
-        S r = V->substr(self, (spif_stridx_t) vh_int(ARG(0)), (spif_stridx_t) vh_int(ARG(1)));
+        S r = V->substr(self, (spif_stridx_t) xint(ARG(0)), (spif_stridx_t) xint(ARG(1)));
         if (!r) put_sub(ret, 0, NULL, 0);
         else {
             if ((inv = check_obj(r, "substr_result"))) { V->del(r); return inv; }
@@ -406,7 +438,7 @@ static const char *step1(const vh_step_t *st, vh_sb *ret, vh_sb *state) {
         }
     }
     else if (OP("substr_to_ptr")) {
-        spif_charptr_t r = V->substr_to_ptr(self, (spif_stridx_t) vh_int(ARG(0)), (spif_stridx_t) vh_int(ARG(1)));
+        spif_charptr_t r = V->substr_to_ptr(self, (spif_stridx_t) xint(ARG(0)), (spif_stridx_t) xint(ARG(1)));
         if (!r) put_sub(ret, 0, NULL, 0);
         else {
             size_t asz, k;
@@ -424,20 +456,20 @@ static const char *step1(const vh_step_t *st, vh_sb *ret, vh_sb *state) {
     }
     else if (OP("cmp_with_ptr")) { p = vh_bytes(ARG(0), &n, 1); sb_int(ret, (long) V->cmp_with_ptr(self, (spif_charptr_t) p)); }
     else if (OP("casecmp_with_ptr")) { p = vh_bytes(ARG(0), &n, 1); sb_int(ret, (long) V->casecmp_with_ptr(self, (spif_charptr_t) p)); }
-    else if (OP("ncmp_with_ptr")) { p = vh_bytes(ARG(0), &n, 1); sb_int(ret, (long) V->ncmp_with_ptr(self, (spif_charptr_t) p, (spif_stridx_t) vh_int(ARG(1)))); }
-    else if (OP("ncasecmp_with_ptr")) { p = vh_bytes(ARG(0), &n, 1); sb_int(ret, (long) V->ncasecmp_with_ptr(self, (spif_charptr_t) p, (spif_stridx_t) vh_int(ARG(1)))); }
+    else if (OP("ncmp_with_ptr")) { p = vh_bytes(ARG(0), &n, 1); sb_int(ret, (long) V->ncmp_with_ptr(self, (spif_charptr_t) p, (spif_stridx_t) xint(ARG(1)))); }
+    else if (OP("ncasecmp_with_ptr")) { p = vh_bytes(ARG(0), &n, 1); sb_int(ret, (long) V->ncasecmp_with_ptr(self, (spif_charptr_t) p, (spif_stridx_t) xint(ARG(1)))); }
     else if (OP("cmp")) sb_int(ret, (long) V->cmp(self, other));
     else if (OP("casecmp")) sb_int(ret, (long) V->casecmp(self, other));
-    else if (OP("ncmp")) sb_int(ret, (long) V->ncmp(self, other, (spif_stridx_t) vh_int(ARG(0))));
-    else if (OP("ncasecmp")) sb_int(ret, (long) V->ncasecmp(self, other, (spif_stridx_t) vh_int(ARG(0))));
+    else if (OP("ncmp")) sb_int(ret, (long) V->ncmp(self, other, (spif_stridx_t) xint(ARG(0))));
+    else if (OP("ncasecmp")) sb_int(ret, (long) V->ncasecmp(self, other, (spif_stridx_t) xint(ARG(0))));
     else if (OP("cmp_self")) sb_int(ret, (long) V->cmp(self, self));
     else if (OP("casecmp_self")) sb_int(ret, (long) V->casecmp(self, self));
-    else if (OP("ncmp_self")) sb_int(ret, (long) V->ncmp(self, self, (spif_stridx_t) vh_int(ARG(0))));
-    else if (OP("ncasecmp_self")) sb_int(ret, (long) V->ncasecmp(self, self, (spif_stridx_t) vh_int(ARG(0))));
+    else if (OP("ncmp_self")) sb_int(ret, (long) V->ncmp(self, self, (spif_stridx_t) xint(ARG(0))));
+    else if (OP("ncasecmp_self")) sb_int(ret, (long) V->ncasecmp(self, self, (spif_stridx_t) xint(ARG(0))));
     else if (OP("cmp_with_ptr_null")) sb_int(ret, (long) V->cmp_with_ptr(self, NULL));
     else if (OP("casecmp_with_ptr_null")) sb_int(ret, (long) V->casecmp_with_ptr(self, NULL));
-    else if (OP("ncmp_with_ptr_null")) sb_int(ret, (long) V->ncmp_with_ptr(self, NULL, (spif_stridx_t) vh_int(ARG(0))));
-    else if (OP("ncasecmp_with_ptr_null")) sb_int(ret, (long) V->ncasecmp_with_ptr(self, NULL, (spif_stridx_t) vh_int(ARG(0))));
+    else if (OP("ncmp_with_ptr_null")) sb_int(ret, (long) V->ncmp_with_ptr(self, NULL, (spif_stridx_t) xint(ARG(0))));
+    else if (OP("ncasecmp_with_ptr_null")) sb_int(ret, (long) V->ncasecmp_with_ptr(self, NULL, (spif_stridx_t) xint(ARG(0))));
     else if (OP("to_num")) sb_int(ret, (long) V->to_num(self, (int) vh_int(ARG(0))));
     else if (OP("to_float")) {
         double d = V->to_float(self);
@@ -474,6 +506,17 @@ static const char *vh_step(const vh_step_t *st, vh_sb *ret, vh_sb *state) {
     if (wiring_msg) return wiring_msg;
     g_ret = ret; g_state = state;
     if (!own_h0_set) { own_h0 = own_level(); own_h0_set = 1; }
+    xint_bad = 0;
+    if (n > 2 && !strcmp(st->op + n - 2, "_x") && !strstr(st->op, "_from_num_x") && !strstr(st->op, "sprintf_d_x")) {
+        static char basex[64];
+        vh_step_t one = *st;
+        if (n - 2 >= sizeof(basex)) return "script_error_x";
+        memcpy(basex, st->op, n - 2); basex[n - 2] = 0;
+        one.op = basex;
+        inv = step1(&one, ret, state);
+        if (!inv && xint_bad) return "script_error_inconsistent_extended_integer";
+        return inv;
+    }
     if (n > 2 && !strcmp(st->op + n - 2, "_n")) {
         static char base[64];
         vh_step_t one = *st;
@@ -503,7 +546,7 @@ int main(int argc, char **argv) {
     else if (!strcmp(argv[1], "ustr")) V = &vt_ustr;
     else { fprintf(stderr, "unknown class %s\n", argv[1]); return 2; }
     libast_set_program_name("str_replay");
-    DEBUG_LEVEL = 0;
+    DEBUG_LEVEL = getenv("C01_DEBUG_LEVEL") ? (unsigned) atoi(getenv("C01_DEBUG_LEVEL")) : 0;      /* process-wide switch: a dimension of the purity runs */
     sb_need(&last_state, 1 << 16);
     own_heap = getenv("C01_OWN_HEAP") != NULL;
     preset_errno = getenv("C01_ERRNO") ? atoi(getenv("C01_ERRNO")) : 0;
